@@ -167,7 +167,7 @@ def run(tier, seed0):
     for _, _, raws, _ in docs:
         corpus.write_raw(raws, idl_dir)
     modes = ["single", "split", "workspace"]
-    seeds = list(range(16)) if tier == "quick" else list(range(96))
+    seeds = list(range(8)) if tier == "quick" else list(range(96))
     threads = [1, 16] if tier == "quick" else [1, 2, 3, 4, 8, 16]
     max_perm_tasks = 4 if tier == "quick" else 5
     m = {"evaluations": 0, "nontrivial": 0, "states": set(), "transitions": set(), "outcomes": {}, "samples": [],
@@ -189,41 +189,58 @@ def run(tier, seed0):
         return os.path.join(base, "runs", "r%06d" % counter[0])
 
     natural_orders = {}
-    for (name, mode, raws, _), omode in itertools.product(docs, modes):
-        if mode == "proto" and omode == "workspace":
-            continue
+    keys = [(name, mode, raws, omode) for (name, mode, raws, _), omode in itertools.product(docs, modes)
+            if not (mode == "proto" and omode == "workspace")]
+    trace_dir = os.path.join(base, "traces")
+    os.makedirs(trace_dir, exist_ok=True)
+    import threading
+    lock = threading.Lock()
+
+    def mk_out_locked():
+        with lock:
+            return mk_out()
+
+    # phase 1 (all keys in parallel): the reference run and one traced hooked run that discovers
+    # the number of per-module tasks
+    def phase1(k):
+        name, mode, raws, omode = k
+        rc, ref, log = run_one(plain, mode, idl_dir, name, raws, omode, mk_out_locked(), 0, 1)
+        if rc != 0:
+            return k, rc, ref, log, None, None, 0
+        tr = os.path.join(trace_dir, "%s_%s_probe.txt" % (name, omode))
+        if os.path.exists(tr):
+            os.remove(tr)
+        rc2, hh, log2 = run_one(hooked, mode, idl_dir, name, raws, omode, mk_out_locked(), 0, 1, trace=tr)
+        ntasks = 0
+        if os.path.exists(tr):
+            lines = [l for l in open(tr).read().splitlines() if l.startswith("mods")]
+            ntasks = max([len(l.split("\t")) - 1 for l in lines] + [0])
+        return k, rc, ref, log, rc2, hh, ntasks
+
+    with ThreadPoolExecutor(max_workers=vlib.NCPU) as ex:
+        first = list(ex.map(phase1, keys))
+    work = []
+    refs = {}
+    for (name, mode, raws, omode), rc, ref, log, rc2, hh, ntasks in first:
         key = "%s/%s" % (name, omode)
-        # reference run
-        rc, ref, log = run_one(plain, mode, idl_dir, name, raws, omode, mk_out(), 0, 1)
         m["evaluations"] += 1
         if rc != 0:
             fail("C17|%s|%s|builder-failed" % (mode, omode), {"doc": name, "mode": omode}, log[-400:])
             continue
         m["nontrivial"] += 1
+        m["evaluations"] += 1
+        refs[key] = ref
         if len(m["samples"]) < 6:
             m["samples"].append({"document": name, "output_mode": omode, "files": len(ref), "sha256_of_first": sorted(ref.items())[0][1][:16]})
-        work = []
-        for s in seeds:
-            for t in threads:
-                work.append(("seed", plain, s, t, None))
-        # hooked: natural-order trace per seed (sequential natural order), and all permutations
-        trace_dir = os.path.join(base, "traces")
-        os.makedirs(trace_dir, exist_ok=True)
-        # discover the number of module tasks with one traced hooked run
-        tr = os.path.join(trace_dir, "%s_%s_probe.txt" % (name, omode))
-        if os.path.exists(tr):
-            os.remove(tr)
-        rc, hh, log = run_one(hooked, mode, idl_dir, name, raws, omode, mk_out(), 0, 1, trace=tr)
-        m["evaluations"] += 1
-        ntasks = 0
-        if os.path.exists(tr):
-            lines = [l for l in open(tr).read().splitlines() if l.startswith("mods")]
-            ntasks = max([len(l.split("\t")) - 1 for l in lines] + [0])
-        if rc != 0 or hh != ref:
+        if rc2 != 0 or hh != ref:
             outcome("hooked-differs")
             fail("C17|%s|%s|hooked-build-differs-from-plain" % (mode, omode), {"doc": name, "mode": omode}, "the hooked build's output differs from the unhooked one (hook not faithful?)")
         else:
             m["counters"]["hooked_equal_plain"] = m["counters"].get("hooked_equal_plain", 0) + 1
+        n0 = len(work)
+        for s_ in seeds:
+            for t in threads:
+                work.append((name, mode, raws, omode, "seed", plain, s_, t, None))
         perms = []
         if 2 <= ntasks <= max_perm_tasks:
             perms = list(itertools.permutations(range(ntasks)))
@@ -231,56 +248,59 @@ def run(tier, seed0):
             ident = list(range(ntasks))
             perms = [tuple(ident), tuple(reversed(ident))]
             for i in range(ntasks - 1):
-                p = ident[:]
-                p[i], p[i + 1] = p[i + 1], p[i]
-                perms.append(tuple(p))
+                p_ = ident[:]
+                p_[i], p_[i + 1] = p_[i + 1], p_[i]
+                perms.append(tuple(p_))
             m["caps"].append("%s: %d module tasks > %d: adjacent transpositions + reversal instead of all permutations" % (key, ntasks, max_perm_tasks))
-        for p in perms:
-            work.append(("perm", hooked, 0, 1, p))
-        for s in seeds[: max(4, len(seeds) // 4)]:
-            work.append(("trace", hooked, s, 1, None))
-        m["spaces"][key] = len(work)
+        for p_ in perms:
+            work.append((name, mode, raws, omode, "perm", hooked, 0, 1, p_))
+        for s_ in seeds[: max(4, len(seeds) // 4)]:
+            work.append((name, mode, raws, omode, "trace", hooked, s_, 1, None))
+        m["spaces"][key] = len(work) - n0
 
-        def do(w):
-            kind, binp, s, t, p = w
-            out = os.path.join(base, "runs", "%s_%s_%s_%d_%d_%s" % (name, omode, kind, s, t, "-".join(map(str, p)) if p else "n"))
-            tr2 = None
-            if kind == "trace":
-                tr2 = os.path.join(trace_dir, "%s_%s_seed%d.txt" % (name, omode, s))
-                if os.path.exists(tr2):
-                    os.remove(tr2)
-            rc, h, log = run_one(binp, mode, idl_dir, name, raws, omode, out, s, t, schedule=p, trace=tr2)
-            nat = None
-            if tr2 and os.path.exists(tr2):
-                lines = [l for l in open(tr2).read().splitlines() if l.startswith("mods")]
-                nat = "|".join(lines)
-            shutil.rmtree(out, ignore_errors=True)
-            return w, rc, h, log, nat
+    # phase 2: every remaining run of every key in one pool
+    def do(w):
+        name, mode, raws, omode, kind, binp, s_, t, p_ = w
+        out = os.path.join(base, "runs", "%s_%s_%s_%d_%d_%s" % (name, omode, kind, s_, t, "-".join(map(str, p_)) if p_ else "n"))
+        tr2 = None
+        if kind == "trace":
+            tr2 = os.path.join(trace_dir, "%s_%s_seed%d.txt" % (name, omode, s_))
+            if os.path.exists(tr2):
+                os.remove(tr2)
+        rc, h, log = run_one(binp, mode, idl_dir, name, raws, omode, out, s_, t, schedule=p_, trace=tr2)
+        nat = None
+        if tr2 and os.path.exists(tr2):
+            lines = [l for l in open(tr2).read().splitlines() if l.startswith("mods")]
+            nat = "|".join(lines)
+        shutil.rmtree(out, ignore_errors=True)
+        return w, rc, h, log, nat
 
-        with ThreadPoolExecutor(max_workers=vlib.NCPU) as ex:
-            results = list(ex.map(do, work))
-        for (kind, binp, s, t, p), rc, h, log, nat in results:
-            m["evaluations"] += 1
-            m["cases_enumerated"] += 1
-            case = {"doc": name, "mode": mode, "output_mode": omode, "kind": kind, "seed": s, "threads": t, "schedule": list(p) if p else None}
-            if kind == "perm":
-                m["states"].add("%s:perm:%s" % (key, p))
-            else:
-                m["states"].add("%s:seed:%d" % (key, s))
-            m["transitions"].add("%s:%s:%d:%d:%s" % (key, kind, s, t, p))
-            if nat is not None:
-                natural_orders.setdefault(key, set()).add(nat)
-            if rc != 0:
-                outcome("builder-failed")
-                fail("C17|%s|%s|builder-failed:%s" % (mode, omode, kind), case, log[-300:])
-            elif h != ref:
-                outcome("differs")
-                changed = sorted(set(k for k in set(h) | set(ref) if h.get(k) != ref.get(k)))
-                what = "file-set" if set(h) != set(ref) else "contents"
-                fail("C17|%s|%s|%s-differ:%s" % (mode, omode, what, "task-order" if kind == "perm" else "hash-seed-or-threads"), case,
-                     "%d of %d files differ from the reference run (seed 0, 1 thread): %s" % (len(changed), len(ref), ", ".join(changed[:4])))
-            else:
-                outcome("identical")
+    with ThreadPoolExecutor(max_workers=vlib.NCPU) as ex:
+        results = list(ex.map(do, work))
+    for (name, mode, raws, omode, kind, binp, s_, t, p_), rc, h, log, nat in results:
+        key = "%s/%s" % (name, omode)
+        ref = refs[key]
+        m["evaluations"] += 1
+        m["cases_enumerated"] += 1
+        case = {"doc": name, "mode": mode, "output_mode": omode, "kind": kind, "seed": s_, "threads": t, "schedule": list(p_) if p_ else None}
+        if kind == "perm":
+            m["states"].add("%s:perm:%s" % (key, p_))
+        else:
+            m["states"].add("%s:seed:%d" % (key, s_))
+        m["transitions"].add("%s:%s:%d:%d:%s" % (key, kind, s_, t, p_))
+        if nat is not None:
+            natural_orders.setdefault(key, set()).add(nat)
+        if rc != 0:
+            outcome("builder-failed")
+            fail("C17|%s|%s|builder-failed:%s" % (mode, omode, kind), case, log[-300:])
+        elif h != ref:
+            outcome("differs")
+            changed = sorted(set(k_ for k_ in set(h) | set(ref) if h.get(k_) != ref.get(k_)))
+            what = "file-set" if set(h) != set(ref) else "contents"
+            fail("C17|%s|%s|%s-differ:%s" % (mode, omode, what, "task-order" if kind == "perm" else "hash-seed-or-threads"), case,
+                 "%d of %d files differ from the reference run (seed 0, 1 thread): %s" % (len(changed), len(ref), ", ".join(changed[:4])))
+        else:
+            outcome("identical")
     m["counters"]["distinct_natural_orders_realised"] = sum(len(v) for v in natural_orders.values())
     m["counters"]["keys_with_more_than_one_natural_order"] = sum(1 for v in natural_orders.values() if len(v) > 1)
     if m["counters"]["keys_with_more_than_one_natural_order"] == 0:
